@@ -53,6 +53,13 @@ CLAIMED["C10"] = {
     "design_ref": "5 C10",
 }
 
+CLAIMED["C17"] = {
+    "technique": "Lean 4 heap-style proofs on an explicit store of buffers, views and object ids (read-after-write, frame, alias visibility, fresh copies); op-history correspondence observing identity and memory sharing on the real objects",
+    "text": "On the pure store layer: C17_iop (the same object reads the values of x op y after x op= y), C17_iop_frame (Arrays on other buffers and object identities unchanged), write_alias (every other object viewing the same buffer positions sees the update), alloc_fresh + C17_copy_independent (copies are independent in both directions) are proved for every store, view and operand. Tie: histories of in-place ops / copies / deep copies / slices / group insertions on shared objects run on the real classes and on the machine; `is` and np.shares_memory are observed after each step.",
+    "note": "trusted: Lean kernel + standard axioms; numpy's view/copy semantics and `out=` casting are modelled; the history-level statement is by correspondence (induction over op lists not yet proved); sub-views with dimension-changing in-place ops are outside the claim (as the property states)",
+    "design_ref": "5 C17",
+}
+
 NOT_YET = {
 }
 
